@@ -720,3 +720,452 @@ def run(ctx) -> None:  # noqa: F811
                   "other's parameter values", key_detail="buildorder")
     ctx.require(n >= 2, f"R-BUILDORDER matched only {n} builders")
     _inner_run_c03c(ctx)
+
+
+# ---- added after the mutation sweep: unpacked entries are consumed where they were passed; CTF components are applied
+# when their parameter is a distribution; an axis carries the values and the mean-flag of one and the same distribution
+_inner_run_c03d = run
+
+
+def _parents(root):
+    import ast as _ast
+
+    out = {}
+    for p in _ast.walk(root):
+        for c in _ast.iter_child_nodes(p):
+            out[id(c)] = p
+    return out
+
+
+def _const_int(e):
+    import ast as _ast
+
+    if e is None:
+        return None
+    if isinstance(e, _ast.UnaryOp) and isinstance(e.op, _ast.USub) and isinstance(e.operand, _ast.Constant) and \
+            isinstance(e.operand.value, int):
+        return -e.operand.value
+    if isinstance(e, _ast.Constant) and isinstance(e.value, int) and not isinstance(e.value, bool):
+        return e.value
+    raise AnalysisError(f"index `{norm_text(e)}` of the unpacked values is not a constant")
+
+
+def _consumed_rule(ctx, classes, polar: set) -> int:
+    """R-CONSUMED.  Returns the number of kernels examined."""
+    import ast as _ast
+
+    n = 0
+    for k in sorted(classes, key=lambda c: c.qualname):
+        f = None
+        for mname in ("_evaluate_from_angular_grid", "_evaluate_kernel", "_calculate_new_array"):
+            g = k.own_method(mname)
+            if g is not None and not g.is_abstract and _unpack_tokens(g) is not None:
+                f = g
+                break
+        if f is None:
+            continue
+        toks = _unpack_tokens(f)
+        sizes = [len(polar) if t == POLAR else 1 for t in toks]
+        total = sum(sizes)
+        span, o = {}, 0
+        for t, s in zip(toks, sizes):
+            span.setdefault(t, set()).update(range(o, o + s))
+            o += s
+        call = next(c for c in walk_no_nested(f.node) if isinstance(c, _ast.Call) and call_name(c) == "_unpack_distributions")
+        par = _parents(f.node)
+        st = par.get(id(call))
+        ctx.require(isinstance(st, _ast.Assign) and len(st.targets) == 1, f"{f.qualname}: result of _unpack_distributions "
+                    "is not assigned")
+        tg = st.targets[0]
+        if isinstance(tg, (_ast.Tuple, _ast.List)) and len(tg.elts) == 2 and isinstance(tg.elts[0], _ast.Name):
+            var = tg.elts[0].id
+        else:
+            raise AnalysisError(f"{f.qualname}: `values, weights = _unpack_distributions(...)` not recognised")
+        stores = [x for x in walk_no_nested(f.node) if isinstance(x, _ast.Name) and x.id == var and isinstance(x.ctx, _ast.Store)]
+        ctx.require(len(stores) == 1, f"{f.qualname}: the unpacked values are rebound")
+        n_all = sum(1 for x in _ast.walk(f.node) if isinstance(x, _ast.Name) and x.id == var)
+        n_top = sum(1 for x in walk_no_nested(f.node) if isinstance(x, _ast.Name) and x.id == var)
+        ctx.require(n_all == n_top, f"{f.qualname}: the unpacked values are used inside a nested function")
+        consumed: set[int] = set()
+
+        def positions_of(sub) -> list[int]:
+            sl = sub.slice
+            if isinstance(sl, _ast.Slice):
+                if sl.step is not None:
+                    raise AnalysisError(f"{f.qualname}: stepped slice of the unpacked values")
+                return list(range(total))[slice(_const_int(sl.lower), _const_int(sl.upper))]
+            i = _const_int(sl)
+            if not -total <= i < total:
+                raise AnalysisError(f"{f.qualname}: index {i} outside the {total} unpacked values")
+            return [i % total]
+
+        for x in walk_no_nested(f.node):
+            if not (isinstance(x, _ast.Name) and x.id == var and isinstance(x.ctx, _ast.Load)):
+                continue
+            p = par.get(id(x))
+            pos = None
+            node = x
+            if isinstance(p, _ast.Subscript) and p.value is x:
+                pos = positions_of(p)
+                node, p = p, par.get(id(p))
+            else:
+                pos = list(range(total))
+            while isinstance(p, _ast.Call) and call_name(p) in ("tuple", "list") and len(p.args) == 1:
+                node, p = p, par.get(id(p))
+            if isinstance(p, _ast.Call) and call_name(p) == "zip" and not p.keywords:
+                # zip stops at the shortest sequence: a literal symbol table bounds what is read
+                for other in p.args:
+                    if other is node:
+                        continue
+                    d = dotted(other.func.value) if isinstance(other, _ast.Call) and isinstance(other.func, _ast.Attribute) \
+                        and other.func.attr == "keys" else dotted(other)
+                    if d == "polar_symbols":
+                        pos = pos[:len(polar)]
+                    else:
+                        raise AnalysisError(f"{f.qualname}: unpacked values zipped with `{norm_text(other)[:40]}`")
+                consumed |= set(pos)
+            elif isinstance(p, _ast.Assign) and p.value is node:
+                t0 = p.targets[0]
+                if isinstance(t0, (_ast.Tuple, _ast.List)):
+                    if any(isinstance(e, _ast.Starred) for e in t0.elts):
+                        consumed |= set(pos)
+                    else:
+                        consumed |= set(pos[:len(t0.elts)])
+                elif isinstance(t0, _ast.Name):
+                    # a plain alias of one entry (pos has one element) or of the whole tuple (not followed further)
+                    if len(pos) == 1:
+                        consumed |= set(pos)
+                    else:
+                        raise AnalysisError(f"{f.qualname}: the unpacked values are aliased as a whole")
+                else:
+                    raise AnalysisError(f"{f.qualname}: unrecognised use of the unpacked values")
+            elif isinstance(p, (_ast.For, _ast.comprehension)) and p.iter is node:
+                consumed |= set(pos)
+            elif len(pos) == 1 and isinstance(p, (_ast.BinOp, _ast.UnaryOp, _ast.Call, _ast.keyword, _ast.Compare)):
+                consumed |= set(pos)  # one entry used inside an expression
+            elif isinstance(p, _ast.Return):
+                consumed |= set(pos)
+            else:
+                raise AnalysisError(f"{f.qualname}: unrecognised use of the unpacked values in `{norm_text(p)[:60]}`")
+        n += 1
+        for t in dict.fromkeys(toks):
+            missing = sorted(span[t] - consumed)
+            label = "aberration coefficients" if t == POLAR else t
+            ctx.check(not missing, "R-CONSUMED", f"{f.qualname}:{label}", f.where,
+                      f"the unpacked entr{'ies' if len(span[t]) > 1 else 'y'} of `{label}` (position "
+                      f"{min(span[t])}{'..' + str(max(span[t])) if len(span[t]) > 1 else ''} of {total}) "
+                      f"{'are' if len(span[t]) > 1 else 'is'} read",
+                      f"{f.short} passes `{label}` to _unpack_distributions at position(s) {sorted(span[t])[:3]}"
+                      f"{'...' if len(span[t]) > 3 else ''} of {total} but never reads position(s) {missing[:4]} of the result: "
+                      "the kernel uses another parameter's values in its place, so the ensemble axis declared for "
+                      f"`{label}` does not carry its values", key_detail="unread")
+    return n
+
+
+def _dist_truth(t, is_param) -> "bool | None":
+    """Truth value of a guard when the component's parameter is a distribution (never equal to a scalar)."""
+    import ast as _ast
+
+    if isinstance(t, _ast.UnaryOp) and isinstance(t.op, _ast.Not):
+        r = _dist_truth(t.operand, is_param)
+        return None if r is None else not r
+    if isinstance(t, _ast.Compare) and len(t.ops) == 1 and isinstance(t.ops[0], (_ast.Eq, _ast.NotEq)):
+        a, b = t.left, t.comparators[0]
+        for x, y in ((a, b), (b, a)):
+            scalar = isinstance(y, _ast.Constant) or (isinstance(y, _ast.Attribute) and y.attr in ("inf", "nan", "pi")) or (
+                isinstance(y, _ast.UnaryOp) and isinstance(y.operand, (_ast.Constant, _ast.Attribute)))
+            if is_param(x) and scalar:
+                return isinstance(t.ops[0], _ast.NotEq)
+        return None
+    if isinstance(t, _ast.Call) and call_name(t) == "isinstance" and len(t.args) == 2 and is_param(t.args[0]) and \
+            "Distribution" in norm_text(t.args[1]):
+        return True
+    if isinstance(t, _ast.Call) and call_name(t) == "hasattr" and len(t.args) == 2 and is_param(t.args[0]) and \
+            isinstance(t.args[1], _ast.Constant) and t.args[1].value in ("values", "weights"):
+        return True
+    return None
+
+
+def _component_applied_rule(ctx, repo, consts, polar) -> int:
+    import ast as _ast
+
+    ctf = repo.cls("abtem.transfer", "CTF")
+    ev = ctf.find_method("_evaluate_from_angular_grid")
+    meta = ctf.find_method("ensemble_axes_metadata")
+    ctx.require(ev is not None and meta is not None, "CTF kernel / ensemble_axes_metadata not found")
+    # components whose axes the CTF declares
+    declared = []
+    for n in walk_no_nested(meta.node):
+        if isinstance(n, _ast.Attribute) and n.attr == "ensemble_axes_metadata" and isinstance(n.value, _ast.Attribute) and \
+                dotted(n.value.value) == "self":
+            declared.append(n.value.attr)
+    ctx.require(len(declared) >= 2, f"{meta.qualname}: component axes not recognised")
+    par = _parents(ev.node)
+    applied: dict[str, list] = {}
+    for c in walk_no_nested(ev.node):
+        if isinstance(c, _ast.Call) and isinstance(c.func, _ast.Attribute) and c.func.attr == "_evaluate_from_angular_grid" \
+                and isinstance(c.func.value, _ast.Attribute) and dotted(c.func.value.value) == "self":
+            applied.setdefault(c.func.value.attr, []).append(c)
+    # `for factor in factors: factor._evaluate_from_angular_grid(...)`: a component is applied where it is put into
+    # the sequence (list element / append), under the guards around that statement
+    indirect = [c for c in walk_no_nested(ev.node) if isinstance(c, _ast.Call) and isinstance(c.func, _ast.Attribute)
+                and c.func.attr == "_evaluate_from_angular_grid" and isinstance(c.func.value, _ast.Name)]
+    if indirect:
+        for a in walk_no_nested(ev.node):
+            if isinstance(a, _ast.Attribute) and dotted(a.value) == "self" and a.attr in declared:
+                p = par.get(id(a))
+                if isinstance(p, (_ast.List, _ast.Tuple)) or (isinstance(p, _ast.Call) and isinstance(p.func, _ast.Attribute)
+                                                                and p.func.attr == "append" and a in p.args):
+                    applied.setdefault(a.attr, []).append(a)
+    n = 0
+    for comp in declared:
+        kcls = _component_class(repo, ctf, comp)
+        ctx.require(kcls is not None, f"CTF.{comp}: component class not resolved")
+        dnames = [d for d in (_distributions_literal(repo, kcls, consts) or []) if d not in polar]
+        n += 1
+        if comp not in applied:
+            ctx.violation("R-APPLIED", f"{ev.qualname}:{comp}", ev.where,
+                          f"the CTF declares the ensemble axes of `{comp}` but its kernel never evaluates that "
+                          "component: the array has no axis for them", key_detail="never")
+            continue
+
+        def is_param(e, comp=comp, dnames=dnames):
+            d = dotted(e) or ""
+            return any(d in (f"self.{comp}.{p}", f"self.{comp}._{p}", f"self.{p}", f"self._{p}") for p in dnames)
+
+        for c in applied[comp]:
+            node, p = c, par.get(id(c))
+            verdicts = []
+            while p is not None and p is not ev.node:
+                if isinstance(p, _ast.If) and node is not p.test:
+                    in_body = any(node is s for s in p.body)
+                    truth = _dist_truth(p.test, is_param)
+                    if truth is None:
+                        raise AnalysisError(f"{ev.qualname}: guard `{norm_text(p.test)[:60]}` around the `{comp}` "
+                                            "component is not of a recognised form")
+                    verdicts.append((p, truth == in_body))
+                elif isinstance(p, (_ast.For, _ast.While, _ast.Try, _ast.With)):
+                    raise AnalysisError(f"{ev.qualname}: `{comp}` is evaluated inside a loop/with/try")
+                node, p = p, par.get(id(p))
+            bad = [g for g, ok in verdicts if not ok]
+            ctx.check(not bad, "R-APPLIED", f"{ev.qualname}:{comp}", ev.loc(c),
+                      f"`{comp}` is applied whenever {dnames or 'its parameter'} is a distribution "
+                      f"({len(verdicts)} guard(s))",
+                      f"the guard `{norm_text(bad[0].test)[:60] if bad else ''}` skips the `{comp}` component when "
+                      f"{dnames} is a distribution (a distribution never equals the scalar): the CTF declares an "
+                      "ensemble axis for it that the array does not have, and member i is not the run with value i",
+                      key_detail="guard")
+    return n
+
+
+def _axis_pair_rule(ctx, repo, classes) -> int:
+    import ast as _ast
+
+    seen_funcs = {}
+    for k in classes:
+        if k.module.name not in ("abtem.transfer", "abtem.tilt", "abtem.transform"):
+            continue  # the property quantifies over the transfer functions, the tilts and (C20) the scans
+        for mname in ("ensemble_axes_metadata", "_phase_aberrations_ensemble_axes_metadata",
+                      "_get_axes_metadata_from_distributions"):
+            g = k.find_method(mname)
+            if g is not None:
+                seen_funcs[g.qualname] = g
+    tilt = repo.modules.get("abtem.tilt")
+    if tilt is not None:
+        for c in tilt.classes.values():
+            g = c.own_method("ensemble_axes_metadata")
+            if g is not None:
+                seen_funcs[g.qualname] = g
+    n = 0
+    for q, g in sorted(seen_funcs.items()):
+        df = DataFlow(g.node)
+        par = _parents(g.node)
+
+        def root(e, at, want_attr):
+            """canonical text of the distribution object `e` is derived from (through tuple()/list(), a generator over
+            it, `.values`, a local temporary)"""
+            for _ in range(12):
+                if isinstance(e, _ast.Call) and call_name(e) in ("tuple", "list", "bool") and len(e.args) == 1:
+                    e = e.args[0]
+                elif isinstance(e, (_ast.GeneratorExp, _ast.ListComp)) and len(e.generators) == 1:
+                    e = e.generators[0].iter
+                elif isinstance(e, _ast.Attribute) and e.attr == want_attr:
+                    e = e.value
+                    want_attr = None
+                elif isinstance(e, _ast.Name):
+                    d = df.single_def(at, e.id)
+                    if d is not None and d.kind == "assign" and d.value is not None and not isinstance(
+                            df.cfg.nodes[d.node].ast.targets[0] if isinstance(df.cfg.nodes[d.node].ast, _ast.Assign)
+                            else None, (_ast.Tuple, _ast.List)):
+                        e, at = d.value, d.node
+                    else:
+                        break
+                else:
+                    break
+            # a local that is a loop variable / getattr result stays as it is: both keywords must then name it
+            return norm_text(e)
+
+        n_local = 0
+        for c in sorted((x for x in walk_no_nested(g.node) if isinstance(x, _ast.Call)), key=lambda x: (x.lineno, x.col_offset)):
+            if not (call_name(c) or "").split(".")[-1].endswith("Axis"):
+                continue
+            kws = {k_.arg: k_.value for k_ in c.keywords if k_.arg}
+            if "values" not in kws:
+                continue
+            stmt = c
+            while id(stmt) in par and not isinstance(stmt, _ast.stmt):
+                stmt = par[id(stmt)]
+            at = df.cfg.node_of(stmt).idx
+            vroot = root(kws["values"], at, "values")
+            n += 1
+            n_local += 0 if vroot.startswith(("self.", "getattr(self")) else 1
+            shown = vroot if vroot.startswith(("self.", "getattr(self")) else f"<item {n_local}>"
+            construct = f"{q}:{(call_name(c) or '').split('.')[-1]}({shown})"
+            mroot = root(kws["_ensemble_mean"], at, "ensemble_mean") if "_ensemble_mean" in kws else None
+            problems = []
+            if mroot is None:
+                problems.append(f"the axis listing the values of `{vroot}` does not carry that distribution's "
+                                "ensemble_mean flag (an averaged distribution is kept as a full ensemble axis)")
+            elif mroot != vroot:
+                problems.append(f"values come from `{vroot}` but the ensemble_mean flag from `{mroot}`")
+            # the nearest distribution test that controls the construction must test the same object
+            node, p = stmt, par.get(id(stmt))
+            while p is not None and p is not g.node:
+                if isinstance(p, _ast.If):
+                    t = p.test
+                    neg = False
+                    while isinstance(t, _ast.UnaryOp) and isinstance(t.op, _ast.Not):
+                        t, neg = t.operand, not neg
+                    if isinstance(t, _ast.Call) and call_name(t) in ("isinstance", "hasattr") and len(t.args) == 2:
+                        is_dist_test = ("Distribution" in norm_text(t.args[1])) if call_name(t) == "isinstance" else (
+                            isinstance(t.args[1], _ast.Constant) and t.args[1].value in ("values", "weights"))
+                        if is_dist_test:
+                            troot = root(t.args[0], df.cfg.node_of(p).idx, None)
+                            in_body = any(node is s for s in p.body)
+                            if troot != vroot:
+                                problems.append(f"the axis of `{vroot}` is built when `{troot}` is a distribution")
+                            elif in_body == neg:
+                                problems.append(f"the axis of `{vroot}` is built when it is *not* a distribution")
+                            break
+                node, p = p, par.get(id(p))
+            ctx.check(not problems, "R-AXISPAIR", construct, g.loc(c),
+                      f"values, ensemble_mean flag and distribution test all refer to `{vroot}`",
+                      "; ".join(problems) + ": the ensemble axis is labelled / averaged / created according to another "
+                      "parameter than the one whose values it lists", key_detail="pair")
+    return n
+
+
+def _grid_match_rule(ctx, repo) -> int:
+    """R-GRIDMATCH on CTF._evaluate_from_angular_grid."""
+    import ast as _ast
+    from fractions import Fraction as _F
+
+    from ..terms import FlowNormalizer as _FN
+
+    ctf = repo.cls("abtem.transfer", "CTF")
+    ev = ctf.find_method("_evaluate_from_angular_grid")
+    pp = ev.positional_params
+    ctx.require(len(pp) >= 3, f"{ev.qualname}: expected (self, alpha, phi)")
+    grid_rank = {f"len(1*{q}.shape)" for q in pp[1:3]} | {f"{q}.ndim" for q in pp[1:3]}  # atoms as sa.terms spells them
+    df = DataFlow(ev.node)
+    par = _parents(ev.node)
+
+    def kind(e, at, depth=0):
+        """'trailing' | ('bad', text) | None"""
+        if depth > 8:
+            return None
+        if isinstance(e, _ast.Name):
+            d = df.single_def(at, e.id)
+            if d is None or d.kind != "assign" or d.value is None:
+                return None
+            return kind(d.value, d.node, depth + 1)
+        if isinstance(e, _ast.BinOp) and isinstance(e.op, _ast.Add):
+            return kind(e.right, at, depth + 1)  # leading (ensemble) axes + the grid axes
+        if isinstance(e, (_ast.Tuple, _ast.List)):
+            try:
+                vals = [_const_int(x) for x in e.elts]
+            except AnalysisError:
+                return None
+            if vals and vals == list(range(-len(vals), 0)):
+                return "trailing"
+            return ("bad", norm_text(e))
+        if isinstance(e, _ast.Call) and call_name(e) in ("tuple", "list") and len(e.args) == 1:
+            return kind(e.args[0], at, depth + 1)
+        if isinstance(e, _ast.Call) and call_name(e) == "range" and len(e.args) in (1, 2) and not e.keywords:
+            nz = _FN(df, at)
+            lo = nz.norm(e.args[0]) if len(e.args) == 2 else None
+            up = nz.norm(e.args[-1])
+            if lo is None:
+                return ("bad", norm_text(e)) if up.atoms() else None
+            atoms = lo.atoms() | up.atoms()
+            if not atoms or not atoms <= grid_rank:
+                return None
+            if up.const_value() == 0 and lo.is_monomial() and list(lo.terms.values()) == [_F(-1)] and \
+                    all(len(m) == 1 and m[0][1] == 1 for m in lo.terms):
+                return "trailing"
+            return ("bad", norm_text(e))
+        return None
+
+    n = 0
+    for c in sorted((x for x in walk_no_nested(ev.node) if isinstance(x, _ast.Call)), key=lambda x: (x.lineno, x.col_offset)):
+        if (call_name(c) or "").split(".")[-1] != "expand_dims_to_broadcast":
+            continue
+        md = next((k_.value for k_ in c.keywords if k_.arg == "match_dims"), c.args[2] if len(c.args) > 2 else None)
+        ctx.require(md is not None, f"{ev.qualname}: expand_dims_to_broadcast without match_dims joins no axes at all")
+        stmt = c
+        while id(stmt) in par and not isinstance(stmt, _ast.stmt):
+            stmt = par[id(stmt)]
+        at = df.cfg.node_of(stmt).idx
+        if isinstance(md, _ast.Name):
+            d = df.single_def(at, md.id)
+            md = d.value if d is not None and d.kind == "assign" else md
+        ctx.require(isinstance(md, (_ast.Tuple, _ast.List)) and len(md.elts) == 2,
+                    f"{ev.qualname}: match_dims is not a pair")
+        n += 1
+        kinds = [kind(x, at) for x in md.elts]
+        if any(k_ is None for k_ in kinds):
+            raise AnalysisError(f"{ev.qualname}: match_dims `{norm_text(md)[:60]}` not traced to the grid axes")
+        bad = [k_[1] for k_ in kinds if k_ != "trailing"]
+        ctx.check(not bad, "R-GRIDMATCH", f"{ev.qualname}:match_dims#{n}", ev.loc(c),
+                  "both arrays are joined on their trailing grid axes",
+                  f"match_dims ends in `{bad[0] if bad else ''}`, which is not the trailing axes "
+                  "(-rank, ..., -1) of the angular grid: the component's grid axes are not identified with "
+                  "the array's, so the product is an outer product over the grid and no member equals the scalar run",
+                  key_detail="grid")
+    return n
+
+
+def run(ctx) -> None:  # noqa: F811
+    ctx.rule("R-CONSUMED", "every argument a kernel passes to _unpack_distributions is read back from the returned tuple "
+             "at the position it was passed (constant index, slice, destructuring, zip with the symbol table — zip "
+             "stops after len(polar_symbols) entries): an entry that is never read means the kernel computes with "
+             "another parameter's values in its place, so member i along the axis declared for that parameter is not "
+             "the run with its value i")
+    ctx.rule("R-APPLIED", "every component whose ensemble axes CTF.ensemble_axes_metadata declares is evaluated by "
+             "CTF._evaluate_from_angular_grid on the paths on which that component's parameter is a distribution: each "
+             "guard around the evaluation is decided for a distribution-valued parameter (`p != scalar` true, "
+             "`p == scalar` false, isinstance/hasattr true, `not`) and must lead to the evaluation")
+    ctx.rule("R-GRIDMATCH", "every expand_dims_to_broadcast in CTF._evaluate_from_angular_grid matches, for both arrays, "
+             "(leading ensemble axes +) the trailing axes of the angular grid: tuple(range(-len(alpha.shape), 0)) or a "
+             "literal (-k, ..., -1).  Axes that are not matched are broadcast against each other: without the grid "
+             "axes in match_dims the component kernels are combined as an outer product over the grid")
+    ctx.rule("R-AXISPAIR", "in the ensemble-axes builders (transfer, tilt, the generic builder) an axis constructor's "
+             "`values=` and `_ensemble_mean=` are derived from one and the same distribution object, and the "
+             "isinstance/hasattr test that controls its construction tests that same object on the arm where it is a "
+             "distribution: values of one parameter under the flag or the existence condition of another break "
+             "'the axis lists exactly those values' and 'averaged axes equal the weighted mean'")
+    repo = ctx.repo
+    consts = module_constants(repo.module("abtem.transfer"))
+    ctx.require("polar_symbols" in consts, "polar_symbols is not a foldable literal")
+    polar = set(consts["polar_symbols"].keys())
+    base = repo.cls(DIST, "EnsembleFromDistributions")
+    classes = [c for c in recon.concrete_classes(repo) if base in c.mro()]
+    n = _consumed_rule(ctx, classes, polar)
+    ctx.require(n >= 3, f"R-CONSUMED examined only {n} kernels")
+    n = _component_applied_rule(ctx, repo, consts, polar)
+    ctx.require(n >= 3, f"R-APPLIED examined only {n} components")
+    n = _grid_match_rule(ctx, repo)
+    ctx.require(n >= 2, f"R-GRIDMATCH examined only {n} broadcasts")
+    n = _axis_pair_rule(ctx, repo, classes)
+    ctx.require(n >= 6, f"R-AXISPAIR examined only {n} axis constructors")
+    _inner_run_c03d(ctx)
